@@ -289,11 +289,14 @@ def run_history(workers: int, max_fails: int, history: List[Any], lag: bool = Fa
 # oracles
 
 
-def oracle_c17(out: Dict[str, Any], workers: int) -> List[Violation]:
+def oracle_c17(out: Dict[str, Any], workers: int, max_fails: Optional[int] = None) -> List[Violation]:
     v: List[Violation] = []
     tr = out["trace"]
     if out["crash"]:
         v.append(Violation("manager-crashed", out["crash"]))
+    if max_fails is not None and max_fails < 1 and out.get("returned") and out.get("ret") == -1:
+        # "unless it has exhausted its failure budget": there is no budget to exhaust when max_fails < 1
+        v.append(Violation("gave-up-without-budget", f"start() returned -1 (stopped supervising) although max_fails={max_fails} means no failure budget"))
     slots = {f"worker-{i}" for i in range(workers)}
     started_slots = set()
     for e in tr:
@@ -716,7 +719,7 @@ class C17(ProcCheck):
     floors = {"counters.histories": 20000, "events.died": 10000, "events.start": 50000, "counters.random_histories": 500}
 
     def judge(self, out: Dict[str, Any], w: int, mf: int, hist: List[Any]) -> List[Violation]:
-        return oracle_c17(out, w)
+        return oracle_c17(out, w, mf)
 
     def selftest(self) -> List[str]:
         out = {"trace": [(0, "start", "worker-0", 1000, ()), (1, "tick"), (1, "died", "worker-0", 1000), (2, "tick"),
